@@ -550,6 +550,18 @@ def _intervals(w: World, rec: dict):
     return out
 
 
+def reachable_state(w: World, rec: dict) -> bool:
+    """Generator invariant that needs the real frontier to evaluate: in retracting mode the
+    simulator re-offers every SCHEDULED task (its estimated completion `now + slowest` is always
+    inside `now + lookahead + slowest`) unless the generator drew a planned-ahead child whose
+    parent estimate pushes it out of the lookahead — a state no run reaches with fixed flags
+    and exact runtimes.  Such cases still take part in the model comparison, not in the oracles."""
+    if not w.spec["flags"]["retract"]:
+        return True
+    offered = {t.unique_name for t in rec.get("offered", [])}
+    return all(t.unique_name in offered for _, t in w.task_list if t.state.name == "SCHEDULED")
+
+
 def oracle_c10(w: World, rec: dict) -> list[str]:
     """Complete, feasible, side-effect-free decision (planner clauses)."""
     bad = []
@@ -1398,6 +1410,9 @@ def run(prop: str, chk, rng, tier: str) -> list[str]:
             if len(rec["placements"]) != 0 or rec["n_models"] != 0:
                 disagreements.append(f"[ilp case {wi}] nothing offered but placements/model produced")
         # oracles on the real output
+        if not reachable_state(w, rec):
+            chk.count("ilp:unreachable-retract-state (oracles skipped)")
+            continue
         if prop in ("C10", "C11", "C12"):
             for b in oracle_for(prop, w, rec):
                 chk.violation(f"ilp {prop}: {b}", {"planner": NAME, "prop": prop, "spec": spec, "what": b})
@@ -1437,6 +1452,8 @@ def search(prop: str, chk, rng, tier: str) -> None:
         try:
             w, rec, case = run_case(spec, False)
         except Exception:
+            continue
+        if not reachable_state(w, rec):
             continue
         for p_ in ("C10", "C11", "C12"):
             if p_ != prop:
